@@ -290,6 +290,14 @@ def run_tlc(
     shutil.rmtree(os.path.join(rundir, "md"), ignore_errors=True)
     if res.errors:
         raise MachineryError("TLC error on %s: %s\n%s" % (module, res.errors[:3], res.out[-3000:]))
+    if res.violated and not allow_violation and workers != 1 and not simulate:
+        # A multi-worker TLC run of this pre-release reported (once, not reproducibly) a violation that a
+        # single-worker run does not show.  Design-level runs do not depend on /repo, so they are repeated
+        # deterministically with one worker before being believed.
+        sys.stderr.write("note: %s reported %s with %d workers; re-running with 1 worker\n" % (module, res.violated, workers))
+        return run_tlc(module, cfg, workers=1, timeout=max(timeout * 4, 1800), env=env, depth=depth, seed=seed,
+                       coverage=coverage, heap=heap, dfs_queue=dfs_queue, allow_violation=allow_violation, extra=extra,
+                       tag=(tag + "-w1"))
     if res.violated and not allow_violation:
         raise MachineryError("design-level property violated on %s: %s\n%s" % (module, res.violated, res.out[-4000:]))
     if res.rc not in (0, 12, 13) and not res.violated:
